@@ -6,6 +6,10 @@ GROUPS = [
     Group(name="C20/link_function_mips", unity="C20/u_link.cpp", entry="h_link",
           functions=[("link_function_mips", "asm/mips.cpp", "extracted verbatim (tools/prep_tree.py EXTRACT) + harness + loop-contract, unbounded function size"), ("add_bin32", "core/add_bin.cpp", "harness")],
           loops="C20/link.loops.json", expected_loops=1, unwind=3, checks=CH[:2], timeout=900),
+    Group(name="C20/AsmContext.link[bounded]", unity="C20/u_asmlink.cpp", entry="h_asmlink",
+          functions=[("AsmContext::link", "core/AsmContext.cpp", "extracted verbatim + harness, bounded"), ("Linker::get_code_from_symbol", "core/Linker.cpp", "extracted verbatim, import list of 2")],
+          defines=["MAXSYMS=3"], unwind=6, checks=CH[:2], timeout=900,
+          bounded="needed-symbol lists of at most 3 names (initial length and growth during the loop symbolic), two import records of symbolic kind; a DFCC loop contract on the list loop was written (contracts/C20/asmlink.loops.json) but DFCC rejects an assignment to a local of the callee (tool limit), so the loop is closed by complete unwinding"),
     Group(name="C20/get_int", unity="C20/u_getint.cpp", entry="h_get_int", functions=[("get_int16_le/be, get_int32_le/be", "core/imports_get_int.cpp", "harness (loop-free, full domain)")],
           checks=CH[:2], timeout=200),
     Group(name="C20/lookup_by_offset[bounded]", unity="C20/u_obj.cpp", entry="h_lookup_by_offset", functions=[("imports_obj_symbol_table_lookup_by_offset", "core/imports_obj.cpp", "harness, bounded")],
